@@ -92,6 +92,8 @@ def payload_expr(p):
 
 def render_rs(f):
     o = ["use serde::{Deserialize, Serialize};", ""]
+    if f.get("noise"):
+        o += ["// a comment and a helper that is neither a command nor a serde type", "fn helper_noise() -> u8 { 0 }", ""]
     for s in f["structs"]:
         o.append("#[derive(Serialize, Deserialize, Default, Clone)]")
         if s.get("rename_all"):
@@ -518,6 +520,11 @@ def e_field_case(d):
     _toggle(d["cfg"], "default_field_case", "snake_case", "camelCase")
 
 
+def e_noise(d):
+    f = d["files"][0]
+    f["noise"] = not f.get("noise")
+
+
 def e_visualize(d):
     d["cfg"]["visualize_deps"] = not d["cfg"]["visualize_deps"]
 
@@ -530,7 +537,7 @@ EDITS = {
     "variant_rename": e_variant_rename, "validator": e_validator, "event_name": e_event_name,
     "event_payload": e_event_payload, "event_add": e_event_add, "channel": e_channel, "mode": e_mode,
     "type_mapping": e_type_mapping, "param_case": e_param_case, "field_case": e_field_case,
-    "visualize": e_visualize,
+    "visualize": e_visualize, "noise": e_noise,
 }
 
 
